@@ -24,7 +24,7 @@
 (***************************************************************************)
 EXTENDS Naturals, Sequences, FiniteSets, TLC
 
-CONSTANTS NT, NX, NV, MaxIds, MaxCommits, MaxLocks,
+CONSTANTS NT, NX, NV, MaxIds, MaxCommits, MaxLocks, MaxCrash,
           RcRoots,     \* column is ref_counted + preimage: roots carry a count
           AO,          \* append_only column: nothing is ever dereferenced, no node counts
           Fine,        \* TRUE: the log worker's deferral check and its plan are separate steps
@@ -39,10 +39,12 @@ NoRoot == [rc |-> 0, data |-> 0, kids |-> <<>>]
 NoTx == [cid |-> 0, tree |-> [t |-> "none"], set |-> [x |-> 0, v |-> 0], used |-> {}]
 
 VARIABLES roots, nrc, nkids, xs, covlT, covlX, queue, inflight, toDeref, locked, snap,
-          nextId, nextCid, ncommits, nlocks, ideal, idealX, conflictT, conflictX, corrupt, hist
+          nextId, nextCid, ncommits, nlocks, ideal, idealX, conflictT, conflictX, corrupt,
+          hdrMark, leaked, ncrash, hist
 
 vars == <<roots, nrc, nkids, xs, covlT, covlX, queue, inflight, toDeref, locked, snap,
-          nextId, nextCid, ncommits, nlocks, ideal, idealX, conflictT, conflictX, corrupt, hist>>
+          nextId, nextCid, ncommits, nlocks, ideal, idealX, conflictT, conflictX, corrupt,
+          hdrMark, leaked, ncrash, hist>>
 
 SeqSet(s) == {s[i] : i \in DOMAIN s}
 
@@ -90,7 +92,8 @@ Init ==
     /\ toDeref = [k \in TKeys |-> 0] /\ locked = {} /\ snap = [k \in TKeys |-> NoRoot]
     /\ nextId = 1 /\ nextCid = 1 /\ ncommits = 0 /\ nlocks = 0
     /\ ideal = [k \in TKeys |-> NoRoot] /\ idealX = [x \in XKeys |-> 0]
-    /\ conflictT = {} /\ conflictX = {} /\ corrupt = FALSE /\ hist = <<>>
+    /\ conflictT = {} /\ conflictX = {} /\ corrupt = FALSE
+    /\ hdrMark = 1 /\ leaked = {} /\ ncrash = 0 /\ hist = <<>>
 
 --------------------------------------------------------------------------
 (* Client: commit_changes.  A transaction is one optional tree operation   *)
@@ -159,7 +162,7 @@ Commit ==
        /\ covlX' = IF st.x = 0 THEN covlX ELSE [covlX EXCEPT ![st.x] = [cid |-> nextCid, v |-> st.v]]
        /\ idealX' = IF st.x = 0 THEN idealX ELSE [idealX EXCEPT ![st.x] = st.v]
     /\ nextCid' = nextCid + 1 /\ ncommits' = ncommits + 1
-    /\ UNCHANGED <<roots, xs, inflight, locked, snap, nlocks, conflictT, conflictX, corrupt>>
+    /\ UNCHANGED <<roots, xs, inflight, locked, snap, nlocks, conflictT, conflictX, corrupt, hdrMark, leaked, ncrash>>
 
 --------------------------------------------------------------------------
 (* Readers: get_tree(..).read() + get_root() under the lock                *)
@@ -171,14 +174,14 @@ Lock(k) ==
     /\ nlocks' = nlocks + 1
     /\ hist' = Append(hist, [a |-> "Lock", k |-> k])
     /\ UNCHANGED <<roots, nrc, nkids, xs, covlT, covlX, queue, inflight, toDeref, nextId, nextCid,
-                   ncommits, ideal, idealX, conflictT, conflictX, corrupt>>
+                   ncommits, ideal, idealX, conflictT, conflictX, corrupt, hdrMark, leaked, ncrash>>
 
 Unlock(k) ==
     /\ k \in locked
     /\ locked' = locked \ {k} /\ snap' = [snap EXCEPT ![k] = NoRoot]
     /\ hist' = Append(hist, [a |-> "Unlock", k |-> k])
     /\ UNCHANGED <<roots, nrc, nkids, xs, covlT, covlX, queue, inflight, toDeref, nextId, nextCid,
-                   ncommits, nlocks, ideal, idealX, conflictT, conflictX, corrupt>>
+                   ncommits, nlocks, ideal, idealX, conflictT, conflictX, corrupt, hdrMark, leaked, ncrash>>
 
 --------------------------------------------------------------------------
 (* Log worker: process_commits                                             *)
@@ -208,7 +211,7 @@ Defer ==
        /\ hist' = Append(hist, [a |-> "Defer", cid |-> tx.cid, ncid |-> nextCid])
     /\ nextCid' = nextCid + 1
     /\ UNCHANGED <<roots, nrc, nkids, xs, covlT, inflight, toDeref, locked, snap, nextId, ncommits,
-                   nlocks, ideal, idealX, corrupt>>
+                   nlocks, ideal, idealX, corrupt, hdrMark, leaked, ncrash>>
 
 \* dereference walk: children in order; a node with one reference is freed and its children walked
 RECURSIVE Walk(_, _)
@@ -262,7 +265,7 @@ Pop ==
     /\ inflight' = <<Head(queue)>> /\ queue' = Tail(queue)
     /\ hist' = Append(hist, [a |-> "Pop", cid |-> Head(queue).cid])
     /\ UNCHANGED <<roots, nrc, nkids, xs, covlT, covlX, locked, snap, nextId, nextCid, ncommits,
-                   nlocks, ideal, idealX, conflictT, conflictX, corrupt>>
+                   nlocks, ideal, idealX, conflictT, conflictX, corrupt, hdrMark, leaked, ncrash>>
 
 \* ... and the plan + end_record + overlay cleanup
 Apply ==
@@ -272,8 +275,9 @@ Apply ==
        /\ ApplyTx(tx)
        /\ hist' = Append(hist, [a |-> "Apply", cid |-> tx.cid])
     /\ inflight' = <<>>
+    /\ hdrMark' = nextId
     /\ UNCHANGED <<nkids, queue, toDeref, locked, snap, nextId, nextCid, ncommits, nlocks, ideal,
-                   idealX, conflictT, conflictX>>
+                   idealX, conflictT, conflictX, leaked, ncrash>>
 
 \* coarse: one process_commits() call of the stepping API
 Process ==
@@ -283,10 +287,29 @@ Process ==
        /\ ApplyTx(tx)
        /\ hist' = Append(hist, [a |-> "Process", cid |-> tx.cid])
     /\ queue' = Tail(queue)
+    /\ hdrMark' = nextId
     /\ UNCHANGED <<nkids, inflight, locked, snap, nextId, nextCid, ncommits, nlocks, ideal, idealX,
-                   conflictT, conflictX>>
+                   conflictT, conflictX, leaked, ncrash>>
 
-Next == Commit \/ (\E k \in TKeys : Lock(k) \/ Unlock(k)) \/ Defer \/ Pop \/ Apply \/ Process
+\* Process crash and recovery (all logged records survive and are replayed; queued commits are lost).
+\* The value-table headers logged with every record carry the in-memory fill mark / free-list head,
+\* i.e. also the slots claimed by commits that were still queued: after the crash those slots are
+\* neither used nor free (hdrMark: ids below it are covered by a logged header).
+QueuedNew == UNION {{e.id : e \in SeqSet(queue[i].tree.new)} : i \in {j \in DOMAIN queue : queue[j].tree.t = "ins"}}
+Crash ==
+    /\ ncrash < MaxCrash /\ inflight = <<>> /\ locked = {} /\ conflictT = {} /\ conflictX = {}
+    /\ leaked' = leaked \cup {n \in QueuedNew : n < hdrMark}
+    /\ nrc' = [n \in Ids |-> IF n \in QueuedNew THEN 0 ELSE nrc[n]]
+    /\ queue' = <<>> /\ toDeref' = [k \in TKeys |-> 0]
+    /\ covlT' = [k \in TKeys |-> [cid |-> 0, root |-> NoRoot]]
+    /\ covlX' = [x \in XKeys |-> [cid |-> 0, v |-> 0]]
+    /\ ideal' = roots /\ idealX' = xs
+    /\ ncrash' = ncrash + 1
+    /\ hist' = Append(hist, [a |-> "Crash"])
+    /\ UNCHANGED <<roots, nkids, xs, inflight, locked, snap, nextId, nextCid, ncommits, nlocks,
+                   conflictT, conflictX, corrupt, hdrMark>>
+
+Next == Commit \/ (\E k \in TKeys : Lock(k) \/ Unlock(k)) \/ Defer \/ Pop \/ Apply \/ Process \/ Crash
 
 Spec == Init /\ [][Next]_vars
 
@@ -339,8 +362,11 @@ FinalStateStrict ==
         /\ \A x \in XKeys : xs[x] = idealX[x]
         /\ {n \in Ids : nrc[n] > 0} = LiveIdeal
 
-Entries == Cardinality({n \in Ids : nrc[n] > 0}) + Cardinality({k \in TKeys : roots[k].rc > 0})
+Entries == Cardinality({n \in Ids : nrc[n] > 0}) + Cardinality({k \in TKeys : roots[k].rc > 0}) + Cardinality(leaked)
+
+\* C14: no slot is lost (violated by the claim mechanism across a crash: known finding F19)
+NoLeak == leaked = {}
 
 ViewNoHist == <<roots, nrc, nkids, xs, covlT, covlX, queue, inflight, toDeref, locked, snap,
-                nextId, nextCid, ncommits, nlocks, ideal, idealX, conflictT, conflictX, corrupt>>
+                nextId, nextCid, ncommits, nlocks, ideal, idealX, conflictT, conflictX, corrupt, hdrMark, leaked, ncrash>>
 =============================================================================
